@@ -14,9 +14,11 @@ which Mathlib does not have).
                                   bottom sentinel resolved at the depth of the query;
 * `C20_linear_envelope_spec`      the documented area `linear` lies between its boundary temperatures between the local top
                                   and bottom and attains them there (bottom: on a non-degenerate range);
-  `C20_linear_envelope`           the same for `TempModel.get` of the oceanic / mantle copy (and the continental one when the
-                                  feature does not start below the model);
-  `C20_continental_linear_outside_envelope`  the continental copy leaves the envelope (1800 K for a 300 → 1300 K profile);
+  `C20_linear_envelope`           the same for `TempModel.get` of every area copy (continental plate, oceanic plate, mantle
+                                  layer).  Earlier versions excluded the continental copy and proved
+                                  `C20_continental_linear_outside_envelope` (1800 K for a 300 → 1300 K profile); that defect was
+                                  fixed upstream ('fix: continental plate linear temperature measured depth from the model's min
+                                  depth instead of the local top'), the theorem now has no such hypothesis and the witness is gone;
   `C20_line_linear_envelope`      slab / fault `linear` (`LineTemp.get`): between, and equal at the two ends;
 * `C20_plate_boundaries`          `plateSeries` / `plateSeriesConstAge`, for any number of terms, return `top` at depth 0 and
                                   `bot` at `depth = max depth` exactly (induction on the fuel: every sine factor vanishes);
@@ -143,21 +145,20 @@ theorem C20_linear_envelope_spec (T : Transc F) (heps : 0 < T.eps) (top bottom t
       intro h; rw [h, sub_self] at hnd; linarith
     exact lerp_bottom tT tB zT zB hz
 
-/-- **C20** the model (oceanic plate / mantle layer copy, or the continental copy when the feature does not start below the
-model's `min depth`): a replacing `linear` inside its range and inside the feature's depths stays between its boundary
-temperatures and attains them at the local top and bottom -/
-theorem C20_linear_envelope (T : Transc F) (heps : 0 < T.eps) (rng : DepthRange F) (top bottom : F) (co : Bool) (ctx : Ctx F) (q : Query F)
-    (old fMin fMax rel mn mx : F) (hco : co = false ∨ fMin ≤ mn)
+/-- **C20** the model, every area copy (continental plate, oceanic plate, mantle layer): a replacing `linear` inside its range
+and inside the feature's depths stays between its boundary temperatures and attains them at the local top and bottom -/
+theorem C20_linear_envelope (T : Transc F) (heps : 0 < T.eps) (rng : DepthRange F) (top bottom : F) (ctx : Ctx F) (q : Query F)
+    (old fMin fMax rel mn mx : F)
     (hl : @DepthRange.locals F (fieldScalar T) rng ctx q false = .ok (some (mn, mx)))
     (hf1 : fMin ≤ q.depth) (hf2 : q.depth ≤ fMax) :
     let zT := max fMin mn
     let zB := min fMax mx
     let tT := @Spec.orAdiabatic F (fieldScalar T) top ctx.potentialT ctx.alpha q.gravityNorm ctx.cp zT
     let tB := @Spec.orAdiabatic F (fieldScalar T) bottom ctx.potentialT ctx.alpha q.gravityNorm ctx.cp zB
-    ∃ v, @TempModel.get F (fieldScalar T) (.linear rng .replace top bottom co) ctx q old fMin fMax rel = .ok v ∧
+    ∃ v, @TempModel.get F (fieldScalar T) (.linear rng .replace top bottom) ctx q old fMin fMax rel = .ok v ∧
       min tT tB ≤ v ∧ v ≤ max tT tB ∧ (q.depth = zT → v = tT) ∧ (q.depth = zB → 10 * T.eps ≤ zB - zT → v = tB) := by
   intro zT zB tT tB
-  refine ⟨_, C05_linear_partial T rng .replace top bottom co ctx q old fMin fMax rel mn mx hco hl, ?_⟩
+  refine ⟨_, C05_linear_full T rng .replace top bottom ctx q old fMin fMax rel mn mx hl, ?_⟩
   simp only [applyOp_field]
   obtain ⟨hb2, hb1⟩ := @DepthRange.locals_bounds F (fieldScalar T) rng ctx q false mn mx hl
   have hb1' : mn ≤ q.depth := hb1
@@ -166,8 +167,7 @@ theorem C20_linear_envelope (T : Transc F) (heps : 0 < T.eps) (rng : DepthRange 
   obtain ⟨h1, h2⟩ := henv (max_le hf1 hb1') (le_min hf2 hb2')
   refine ⟨h1, h2, ?_, ?_⟩
   · intro h; rw [h]
-    have := (C20_linear_envelope_spec T heps top bottom ctx.potentialT ctx.alpha q.gravityNorm ctx.cp fMin fMax mn mx zT).2.1
-    exact this
+    exact (C20_linear_envelope_spec T heps top bottom ctx.potentialT ctx.alpha q.gravityNorm ctx.cp fMin fMax mn mx zT).2.1
   · intro h hnd; rw [h]
     exact (C20_linear_envelope_spec T heps top bottom ctx.potentialT ctx.alpha q.gravityNorm ctx.cp fMin fMax mn mx zB).2.2 hnd
 
@@ -177,23 +177,6 @@ example : (0 : ℚ) < toyTransc.eps ∧
     (50000 : ℚ) ≤ (witnessQuery (100000 : ℚ)).depth ∧ (witnessQuery (100000 : ℚ)).depth ≤ 150000 :=
   ⟨by norm_num [toyTransc], constRange_locals toyTransc 0 200000 false _ _ (by norm_num [witnessQuery]) (by norm_num [witnessQuery]),
    by norm_num [witnessQuery], by norm_num [witnessQuery]⟩
-
-/-- **C20** the continental copy with a feature starting below the model's `min depth` leaves the envelope: 1800 K at the local
-bottom of a 300 → 1300 K profile (feature 50–150 km, model 0–200 km); cf. `C05_continental_linear_offset_witness` -/
-theorem C20_continental_linear_outside_envelope (T : Transc F) (heps : 10 * T.eps ≤ 100000) :
-    @TempModel.get F (fieldScalar T) (.linear (constRange 0 200000) .replace 300 1300 true) witnessCtx (witnessQuery 150000) 0 50000 150000 0
-      = .ok 1800 := by
-  have hl : @DepthRange.locals F (fieldScalar T) (constRange 0 200000) witnessCtx (witnessQuery 150000) false = .ok (some (0, 200000)) :=
-    constRange_locals T 0 200000 false _ _ (by simp [witnessQuery]) (by simp [witnessQuery]; norm_num)
-  have hmax : max (50000 : F) 0 = 50000 := max_eq_left (by norm_num)
-  have hmin : min (150000 : F) 200000 = 150000 := min_eq_left (by norm_num)
-  have hnd : ¬ ((150000 : F) - 50000 < 10 * T.eps) := by
-    rw [not_lt]; have : (150000 : F) - 50000 = 100000 := by norm_num
-    rw [this]; exact heps
-  rw [C05_linear_code T _ _ _ _ _ _ _ _ _ _ _ _ _ hl]
-  simp only [hmax, hmin, if_neg hnd, applyOp_field, if_true, witnessQuery]
-  rw [spec_orAdiabatic_nonneg T 300 _ _ _ _ _ (by norm_num), spec_orAdiabatic_nonneg T 1300 _ _ _ _ _ (by norm_num)]
-  norm_num
 
 /-- **C20** slab / fault `linear`: between the two boundary temperatures for distances inside the range, and equal to them at the
 two ends -/
